@@ -6,6 +6,7 @@ import (
 	"go/parser"
 	"go/token"
 	"go/types"
+	"image"
 	"sort"
 	"strconv"
 
@@ -62,11 +63,17 @@ type Outer struct {
 	MI     map[int]string
 	MB     map[bool]string
 	MN     map[NStr]Inner
+	Pt     image.Point
+	PP     *image.Point
+	LP     []image.Point
+	MP     map[string]image.Point
 	hidden int
 }
 
 // the same declarations for the type checker
 const vC10Decls = `package internal
+
+import "image"
 
 type NInt int
 type NStr string
@@ -102,7 +109,19 @@ type Outer struct {
 	MI     map[int]string
 	MB     map[bool]string
 	MN     map[NStr]Inner
+	Pt     image.Point
+	PP     *image.Point
+	LP     []image.Point
+	MP     map[string]image.Point
 	hidden int
+}
+`
+
+// what the checker needs to know about package image
+const vC10Image = `package image
+
+type Point struct {
+	X, Y int
 }
 `
 
@@ -132,6 +151,17 @@ func vcInner(x Inner) string {
 	}
 	if x.B != "" {
 		s += "B=" + vcStr(x.B) + ";"
+	}
+	return s + "}"
+}
+
+func vcPoint(x image.Point) string {
+	s := "{"
+	if x.X != 0 {
+		s += "X=" + vcInt(int64(x.X)) + ";"
+	}
+	if x.Y != 0 {
+		s += "Y=" + vcInt(int64(x.Y)) + ";"
 	}
 	return s + "}"
 }
@@ -232,6 +262,20 @@ func vcOuter(o *Outer) string {
 		es = append(es, vcStr(string(k))+"=>"+vcInner(v))
 	}
 	add("MN", vcMap(es))
+	add("Pt", vcPoint(o.Pt))
+	if o.PP != nil {
+		add("PP", ptr(false, vcPoint(*o.PP)))
+	}
+	l = nil
+	for _, x := range o.LP {
+		l = append(l, vcPoint(x))
+	}
+	add("LP", vcList(l))
+	es = nil
+	for k, v := range o.MP {
+		es = append(es, vcStr(k)+"=>"+vcPoint(v))
+	}
+	add("MP", vcMap(es))
 	s := "{"
 	for _, f := range fs {
 		s += f
@@ -367,26 +411,61 @@ func (e *vEval) eval(x ast.Expr) string {
 	return e.fail("unexpected expression form")
 }
 
-// vC10Judge: text must compile to the type named typeExpr and evaluate to want.
-func vC10Judge(text string, typeExpr string, want string) {
+type vImp map[string]*types.Package
+
+func (m vImp) Import(path string) (*types.Package, error) {
+	if p, ok := m[path]; ok {
+		return p, nil
+	}
+	return nil, &vImpErr{path}
+}
+
+type vImpErr struct{ path string }
+
+func (e *vImpErr) Error() string { return "no package " + e.path }
+
+// vC10Judge: text must compile - in a file that imports exactly what the
+// dumper's tracker registered - to the type named typeExpr and evaluate to want.
+func vC10Judge(tr namer.ImportTracker, text string, typeExpr string, want string) {
 	verifsym.Provide("real:go/parser.ParseFile", true)
-	verifsym.MapOrderBaseline(true)
 	fset := token.NewFileSet()
-	// the rendered expression initialises a variable of the value's type: that is
-	// "compiled in a file ... has the value's type" (assignability of the literal)
-	src := vC10Decls + "\nvar X " + typeExpr + " = " + text + "\n"
+	// file 1: the type declarations; file 2: the registered imports and the
+	// rendered expression as initialiser of a variable of the value's type
+	// ("compiled in a file with the imports it registered ... has the value's type")
+	src := "package internal\n\n"
+	var paths []string
+	imports := tr.Imports()
+	for path := range imports {
+		paths = append(paths, path)
+	}
+	sort.Strings(paths)
+	verifsym.Observe("registered imports", paths)
+	for _, path := range paths {
+		src += "import " + imports[path] + " " + strconv.Quote(path) + "\n"
+	}
+	src += "\nvar X " + typeExpr + " = " + text + "\n"
+	verifsym.MapOrderBaseline(true)
+	fimg, err0 := parser.ParseFile(fset, "image.go", vC10Image, 0)
+	fdecl, err1 := parser.ParseFile(fset, "decls.go", vC10Decls, 0)
 	f, err := parser.ParseFile(fset, "v.go", src, 0)
 	verifsym.MapOrderBaseline(false)
+	if err0 != nil || err1 != nil {
+		panic("harness: declarations do not parse")
+	}
 	verifsym.Assert(err == nil, "the rendered value literal does not parse")
 	if err != nil {
 		return
 	}
 	verifsym.MapOrderBaseline(true)
+	img, err0 := (&types.Config{}).Check("image", fset, []*ast.File{fimg}, nil)
+	if err0 != nil {
+		panic("harness: package image does not type-check")
+	}
 	info := &types.Info{Types: map[ast.Expr]types.TypeAndValue{}, Defs: map[*ast.Ident]types.Object{}, Uses: map[*ast.Ident]types.Object{}}
-	conf := types.Config{}
-	pkg, err := conf.Check(vC10Path, fset, []*ast.File{f}, info)
+	conf := types.Config{Importer: vImp{"image": img}}
+	pkg, err := conf.Check(vC10Path, fset, []*ast.File{fdecl, f}, info)
 	verifsym.MapOrderBaseline(false)
-	verifsym.Assert(err == nil, "the rendered value literal does not type-check as a value of its type")
+	verifsym.Assert(err == nil, "the rendered value literal does not type-check as a value of its type in a file with the registered imports")
 	if err != nil {
 		return
 	}
@@ -408,8 +487,9 @@ func vC10Judge(text string, typeExpr string, want string) {
 	}
 }
 
-func vC10Dumper() *Dumper {
-	return NewDumper(namer.NewRawNamer(vC10Path, namer.NewDefaultImportTracker()))
+func vC10Dumper() (*Dumper, namer.ImportTracker) {
+	tr := namer.NewDefaultImportTracker()
+	return NewDumper(namer.NewRawNamer(vC10Path, tr)), tr
 }
 
 func vSymStr(n int) string { return verifsym.String(n) }
@@ -490,6 +570,22 @@ func Verif_C10_Value(group, n int) {
 			verifsym.Assume(k1 != k2)
 			o.M = map[string]int{k1: 1, k2: 2}
 		}
+	case 10: // a struct type from another package: by value, behind a pointer, in a slice, in a map
+		if verifsym.Bool() {
+			o.Pt = image.Point{X: int(vSmall()), Y: 1}
+		}
+		switch verifsym.IntRange(0, 2) {
+		case 1:
+			o.PP = &image.Point{}
+		case 2:
+			o.PP = &image.Point{X: 2}
+		}
+		if verifsym.Bool() {
+			o.LP = []image.Point{{X: 1, Y: 2}, {}}
+		}
+		if verifsym.Bool() {
+			o.MP = map[string]image.Point{"a": {Y: 3}, "z": {}}
+		}
 	case 9: // maps with other keys, struct values
 		if verifsym.Bool() {
 			o.MI = map[int]string{10: "a", 2: "b", -1: "c"}
@@ -498,10 +594,12 @@ func Verif_C10_Value(group, n int) {
 			o.MB = map[bool]string{true: "t", false: "f"}
 		}
 		if verifsym.Bool() {
-			o.MN = map[NStr]Inner{"k": {A: 1}, NStr(vSymStr(n)): {}}
+			k := vSymStr(n)
+			verifsym.Assume(k != "k")
+			o.MN = map[NStr]Inner{"k": {A: 1}, NStr(k): {}}
 		}
 	}
-	d := vC10Dumper()
+	d, tr := vC10Dumper()
 	var text string
 	panicked := verifsym.Panics(func() { text = d.ValueLit(*o) })
 	verifsym.Assert(!panicked, "ValueLit panics on a value of its domain")
@@ -509,7 +607,7 @@ func Verif_C10_Value(group, n int) {
 		return
 	}
 	verifsym.Observe("text", text)
-	vC10Judge(text, "Outer", vcOuter(o))
+	vC10Judge(tr, text, "Outer", vcOuter(o))
 	// deterministic: the same text again, and the same text when every map is
 	// walked in insertion order (the explored path may walk them in another order)
 	verifsym.Assert(d.ValueLit(*o) == text, "the rendered text of a value is not deterministic (two renderings differ / it depends on the iteration order of a map)")
@@ -522,7 +620,7 @@ func Verif_C10_Value(group, n int) {
 
 // Verif_C10_Top(kind, n): values that are not struct fields - rendered at top level.
 func Verif_C10_Top(kind, n int) {
-	d := vC10Dumper()
+	d, tr := vC10Dumper()
 	var v any
 	var typeExpr, want string
 	switch kind {
@@ -552,6 +650,11 @@ func Verif_C10_Top(kind, n int) {
 	case 8:
 		b := verifsym.Bool()
 		v, typeExpr, want = b, "bool", vcBool(b)
+	case 10:
+		pt := image.Point{X: int(vSmall()), Y: int(vSmall())}
+		v, typeExpr, want = pt, "image.Point", vcPoint(pt)
+	case 11:
+		v, typeExpr, want = []*image.Point{{X: 1}, nil}, "[]*image.Point", "[&{X=1;},nil,]"
 	case 9:
 		v, typeExpr, want = [2]string{vSymStr(n), ""}, "[2]string", ""
 		want = vcList([]string{vcStr(v.([2]string)[0]), vcStr("")})
@@ -563,6 +666,6 @@ func Verif_C10_Top(kind, n int) {
 		return
 	}
 	verifsym.Observe("text", text)
-	vC10Judge(text, typeExpr, want)
+	vC10Judge(tr, text, typeExpr, want)
 	verifsym.Reach("end")
 }
